@@ -136,7 +136,7 @@ theorem isAllPred_test {p : TermPred} (h : isAllPred p = true) (t : Term) : p.te
 
 /-- the expansion of a multi-term query against the dictionary -/
 def expand (s : Segment) (f : String) (p : TermPred) : List Term :=
-  ((lexicon s f).filter p.test).filter (fun t => !t.isEmpty)
+  (lexicon s f).filter p.test
 
 /-- pointwise: the sum of the leaf scores of the distinct terms of the document that pass `p` -/
 def multiSpec (ls : LeafScore) (s : Segment) (f : String) (p : TermPred) : PSpec := fun i =>
@@ -144,13 +144,13 @@ def multiSpec (ls : LeafScore) (s : Segment) (f : String) (p : TermPred) : PSpec
     some ((((dedup ((s.doc i).terms f)).filter p.test).map (ls (s.doc i) f)).sum)
   else none
 
-theorem multi_fold (hne : NoEmptyTerm s) (f : String) (p : TermPred) (i : Nat) :
+theorem multi_fold (f : String) (p : TermPred) (i : Nat) :
     (((expand s f p).map (termSpec ls s f)).map (fun sp => sp i)).foldr (optMerge (· + ·)) none =
       multiSpec ls s f p i := by
   unfold multiSpec
   by_cases hl : i ∈ s.live
   · rw [foldr_terms ls s f _ i hl]
-    have hperm := expansion_perm hne p.test (f := f) (live_doc_mem hl)
+    have hperm := expansion_perm p.test (f := f) (live_doc_mem hl)
     have hsum := perm_sum_map (ls (s.doc i) f) hperm
     have hnil : ((expand s f p).filter (fun t => (s.doc i).hasTerm f t) = []) ↔
         (((s.doc i).terms f).any p.test = false) := by
@@ -180,7 +180,7 @@ theorem multi_fold (hne : NoEmptyTerm s) (f : String) (p : TermPred) (i : Nat) :
   · rw [foldr_terms_not_live ls s f _ i hl]
     simp [hl]
 
-theorem multi_case (hso : ValidOracle so) (hleaf : PosLeaf ls s) (hne : NoEmptyTerm s)
+theorem multi_case (hso : ValidOracle so) (hleaf : PosLeaf ls s)
     (ctx : Ctx) (f : String) (p : TermPred) (b : Rat) (cs : Bool) (hb : 0 < b) :
     AgreeP ctx.scored (compile ls so s ctx (.multi f p b cs)) (specLookup ls s (.multi f p b cs)) := by
   simp only [compile]
@@ -216,7 +216,7 @@ theorem multi_case (hso : ValidOracle so) (hleaf : PosLeaf ls s) (hne : NoEmptyT
               (so ((expand s f p).map (fun t => Query.term f t 1))) ((expand s f p).map (postings ls s f)) b)
           else orMany (if cs = true then ⟨ctx.nc, false⟩ else ctx) s.size
               (so ((expand s f p).map (fun t => Query.term f t 1))) ((expand s f p).map (postings ls s f)) b) _
-    have hfold := multi_fold ls s hne f p
+    have hfold := multi_fold ls s f p
     generalize hts : expand s f p = ts at hfold
     match ts, hfold with
     | [], hfold =>
@@ -589,10 +589,10 @@ theorem constScore_case (ctx : Ctx) (q : Query) (sc : Rat) (hsc : 0 < sc) (c : P
 /-! ### the refinement -/
 
 mutual
-theorem compile_agree (hso : ValidOracle so) (hleaf : PosLeaf ls s) (hne : NoEmptyTerm s) :
+theorem compile_agree (hso : ValidOracle so) (hleaf : PosLeaf ls s) :
     ∀ (q : Query) (ctx : Ctx), PosQ q → AgreeP ctx.scored (compile ls so s ctx q) (specLookup ls s q)
   | .term f t b, ctx, _ => term_case ls so s ctx f t b
-  | .multi f p b cs, ctx, hp => multi_case ls so s hso hleaf hne ctx f p b cs (by simpa [PosQ] using hp)
+  | .multi f p b cs, ctx, hp => multi_case ls so s hso hleaf ctx f p b cs (by simpa [PosQ] using hp)
   | .phrase f ws slop b, ctx, _ => phrase_case ls so s ctx f ws slop b
   | .numRange f lo hi le he b, ctx, hp => numRange_case ls so s ctx f lo hi le he b (by simpa [PosQ] using hp)
   | .every none b, ctx, hp => every_none_case ls so s ctx b (by simpa [PosQ] using hp)
@@ -601,45 +601,45 @@ theorem compile_agree (hso : ValidOracle so) (hleaf : PosLeaf ls s) (hne : NoEmp
   | .and qs b, ctx, hp => by
     simp only [PosQ] at hp
     simp only [compile]
-    exact and_case ls so s hso ctx.scored qs b _ (compileList_agree hso hleaf hne qs ctx hp.2)
+    exact and_case ls so s hso ctx.scored qs b _ (compileList_agree hso hleaf qs ctx hp.2)
   | .or qs b, ctx, hp => by
     simp only [PosQ] at hp
     simp only [compile]
-    exact or_case ls so s hso hleaf ctx qs b hp.1 hp.2 _ (compileList_agree hso hleaf hne qs ctx hp.2)
+    exact or_case ls so s hso hleaf ctx qs b hp.1 hp.2 _ (compileList_agree hso hleaf qs ctx hp.2)
   | .dismax qs b, ctx, hp => by
     simp only [PosQ] at hp
     simp only [compile]
-    exact dismax_case ls so s hso ctx.scored qs b _ (compileList_agree hso hleaf hne qs ctx hp.2)
+    exact dismax_case ls so s hso ctx.scored qs b _ (compileList_agree hso hleaf qs ctx hp.2)
   | .not q, ctx, hp => by
     simp only [PosQ] at hp
     simp only [compile]
-    exact not_case ls s q _ (compile_agree hso hleaf hne q boolCtx hp) ctx.scored
+    exact not_case ls s q _ (compile_agree hso hleaf q boolCtx hp) ctx.scored
   | .andNot a b, ctx, hp => by
     simp only [PosQ] at hp
     simp only [compile]
-    exact andNot_case ls s ctx.scored a b _ _ (compile_agree hso hleaf hne a ctx hp.1)
-      (compile_agree hso hleaf hne b boolCtx hp.2)
+    exact andNot_case ls s ctx.scored a b _ _ (compile_agree hso hleaf a ctx hp.1)
+      (compile_agree hso hleaf b boolCtx hp.2)
   | .andMaybe a b, ctx, hp => by
     simp only [PosQ] at hp
     simp only [compile]
-    exact andMaybe_case ls s ctx.scored a b _ _ (compile_agree hso hleaf hne a ctx hp.1)
-      (compile_agree hso hleaf hne b ctx hp.2)
+    exact andMaybe_case ls s ctx.scored a b _ _ (compile_agree hso hleaf a ctx hp.1)
+      (compile_agree hso hleaf b ctx hp.2)
   | .require a b, ctx, hp => by
     simp only [PosQ] at hp
     simp only [compile]
-    exact require_case ls s ctx.scored a b _ _ (compile_agree hso hleaf hne a ctx hp.1)
-      (compile_agree hso hleaf hne b boolCtx hp.2)
+    exact require_case ls s ctx.scored a b _ _ (compile_agree hso hleaf a ctx hp.1)
+      (compile_agree hso hleaf b boolCtx hp.2)
   | .constScore q sc, ctx, hp => by
     simp only [PosQ] at hp
     simp only [compile]
-    exact constScore_case ls s ctx q sc hp.1 _ (compile_agree hso hleaf hne q ctx hp.2)
-theorem compileList_agree (hso : ValidOracle so) (hleaf : PosLeaf ls s) (hne : NoEmptyTerm s) :
+    exact constScore_case ls s ctx q sc hp.1 _ (compile_agree hso hleaf q ctx hp.2)
+theorem compileList_agree (hso : ValidOracle so) (hleaf : PosLeaf ls s) :
     ∀ (qs : List Query) (ctx : Ctx), PosQs qs →
       AgreeL ctx.scored (compileList ls so s ctx qs) (qs.map (specLookup ls s))
   | [], _, _ => trivial
   | q :: qs, ctx, hp => by
     simp only [PosQs] at hp
-    exact ⟨compile_agree hso hleaf hne q ctx hp.1, compileList_agree hso hleaf hne qs ctx hp.2⟩
+    exact ⟨compile_agree hso hleaf q ctx hp.1, compileList_agree hso hleaf qs ctx hp.2⟩
 end
 
 end
